@@ -491,6 +491,42 @@ def write_sites_rules(ctx, R):
                 if hn and handler_completes(g, hn[0]):
                     R.fail("RET-retry", "%s|%s" % (f.qualname, norm_stmt(h.type) if h.type is not None else "bare"),
                            "an exception of the transport write is swallowed (`except %s`) and the write loop goes on: data a transport already buffered before failing is sent again, or a failed write is ignored - the message no longer arrives exactly once, in order" % (norm_stmt(h.type) if h.type is not None else ""), f.loc(h))
+    # the write-all loop reports a short write by raising AdbTimeoutError: no caller, however far up, may swallow that and return normally
+    from .c12 import handler_completes
+    W = set(f for f, _n, _c in sites)
+    reach_w = {}
+
+    def reaches(fn):
+        if fn not in reach_w:
+            reach_w[fn] = bool(ctx.cg.reachable([fn]) & W)
+        return reach_w[fn]
+
+    def catches_timeout(h):
+        if h.type is None:
+            return True
+        ts = h.type.elts if isinstance(h.type, ast.Tuple) else [h.type]
+        for t in ts:
+            nm = t.attr if isinstance(t, ast.Attribute) else (t.id if isinstance(t, ast.Name) else None)
+            if nm in ("AdbTimeoutError", "Exception", "BaseException"):
+                return True
+        return False
+    for f in list(ctx.cg.sites):
+        if not any(reaches(c) for cs in ctx.cg.sites[f] for c in cs.callees):
+            continue
+        g = ctx.cfg(f)
+        for n in g.live_nodes():
+            if not n.trys:
+                continue
+            if not any(ctx.cg.site(c) is not None and any(reaches(x) for x in ctx.cg.site(c).callees) for c in node_calls(n)):
+                continue
+            for (t, region) in n.trys:
+                if region != "body":
+                    continue
+                for h in t.handlers:
+                    hn = [x for x in g.nodes_of(h) if x.kind == "except"]
+                    if catches_timeout(h) and hn and handler_completes(g, hn[0]):
+                        R.fail("RET-swallow", "%s|%s|%s" % (f.qualname, norm_stmt(h.type) if h.type is not None else "bare", norm_stmt(n.ast)[:40]),
+                               "`%s` in %s sends a message inside a handler (`except %s`) that completes normally: the AdbTimeoutError by which the write loop reports a half-written message is swallowed and the call returns as if the message had been sent" % (norm_stmt(n.ast)[:50], f.qualname, norm_stmt(h.type) if h.type is not None else ""), f.loc(h))
     return sites
 
 
